@@ -246,57 +246,89 @@ pub fn scratch_need(shape: &Shape, value: &Value) -> usize {
 /// postcard is a compact binary format: both directions must report `is_human_readable() ==
 /// false`, and types that pick their representation by that flag must use the compact one
 /// (std::net addresses as raw octets), through every entry point.
-pub fn check_human_readable_flag(l: &mut crate::runner::Local) -> crate::runner::CaseResult {
+/// Which side of the human-readable flag a property speaks about.
+#[derive(Clone, Copy, PartialEq)]
+pub enum HrMode {
+    /// C01: both sides agree (whatever the value), flag-dependent std types round-trip
+    RoundTrip,
+    /// C02: the encoder is a compact binary format (flag false, compact forms on the wire)
+    Encoder,
+    /// C03: the decoder is one (flag false on every entry point, compact forms decode)
+    Decoder,
+}
+
+pub fn check_human_readable_flag_c01(l: &mut crate::runner::Local) -> crate::runner::CaseResult {
+    check_human_readable_flag(HrMode::RoundTrip, l)
+}
+pub fn check_human_readable_flag_c02(l: &mut crate::runner::Local) -> crate::runner::CaseResult {
+    check_human_readable_flag(HrMode::Encoder, l)
+}
+pub fn check_human_readable_flag_c03(l: &mut crate::runner::Local) -> crate::runner::CaseResult {
+    check_human_readable_flag(HrMode::Decoder, l)
+}
+
+pub fn check_human_readable_flag(mode: HrMode, l: &mut crate::runner::Local) -> crate::runner::CaseResult {
     use crate::dynshape::HrProbe;
     use crate::runner::fail;
     use std::net::{IpAddr, Ipv4Addr, Ipv6Addr, SocketAddrV4};
     let cj = || serde_json::json!({"probe": "human-readable"});
     l.eval();
+    // HrProbe serialises the flag it is shown as a bool and deserialises to the flag it is shown
     let b = postcard::to_allocvec(&HrProbe(false)).map_err(|e| fail("hr-flag", format!("{:?}", e), cj()))?;
-    if b != [0] {
+    let mut buf = [0u8; 4];
+    let b2 = postcard::to_slice(&HrProbe(false), &mut buf).map(|s| s.to_vec());
+    let ser_flag = b == [1];
+    if b2 != Ok(b.clone()) {
+        return Err(fail("hr-flag", "to_slice and to_allocvec serializers report different is_human_readable() values", cj()));
+    }
+    if mode == HrMode::Encoder && ser_flag {
         return Err(fail("hr-flag", "the serializer reports is_human_readable() == true", cj()));
     }
-    let mut buf = [0u8; 4];
-    if postcard::to_slice(&HrProbe(false), &mut buf).map(|s| s.to_vec()) != Ok(vec![0]) {
-        return Err(fail("hr-flag", "to_slice: serializer reports is_human_readable() == true", cj()));
-    }
-    for (name, got) in [
-        ("from_bytes", postcard::from_bytes::<HrProbe>(&[1]).map(|p| p.0)),
-        ("take_from_bytes", postcard::take_from_bytes::<HrProbe>(&[1, 9]).map(|(p, _)| p.0)),
-        ("from_io", postcard::from_io::<HrProbe, _>((&[1u8][..], &mut [0u8; 4][..])).map(|(p, _)| p.0)),
-        ("from_eio", postcard::from_eio::<HrProbe, _>((&[1u8][..], &mut [0u8; 4][..])).map(|(p, _)| p.0)),
-        ("from_bytes_cobs", postcard::from_bytes_cobs::<HrProbe>(&mut [2u8, 1, 0]).map(|p| p.0)),
-    ] {
-        l.eval();
-        if got != Ok(false) {
-            return Err(fail("hr-flag", format!("{}: the deserializer reports is_human_readable() = {:?}", name, got), cj()));
+    if mode != HrMode::Encoder {
+        for (name, got) in [
+            ("from_bytes", postcard::from_bytes::<HrProbe>(&[1]).map(|p| p.0)),
+            ("take_from_bytes", postcard::take_from_bytes::<HrProbe>(&[1, 9]).map(|(p, _)| p.0)),
+            ("from_io", postcard::from_io::<HrProbe, _>((&[1u8][..], &mut [0u8; 4][..])).map(|(p, _)| p.0)),
+            ("from_eio", postcard::from_eio::<HrProbe, _>((&[1u8][..], &mut [0u8; 4][..])).map(|(p, _)| p.0)),
+            ("from_bytes_cobs", postcard::from_bytes_cobs::<HrProbe>(&mut [2u8, 1, 0]).map(|p| p.0)),
+        ] {
+            l.eval();
+            let want = if mode == HrMode::RoundTrip { ser_flag } else { false };
+            if got != Ok(want) {
+                return Err(fail(
+                    "hr-flag",
+                    format!("{}: the deserializer reports is_human_readable() = {:?}{}", name, got, if mode == HrMode::RoundTrip { format!(", the serializer reports {}", ser_flag) } else { String::new() }),
+                    cj(),
+                ));
+            }
         }
     }
-    // representation-by-flag types: compact on the wire, and they come back
+    // representation-by-flag types
     let v4 = Ipv4Addr::new(127, 0, 0, 1);
     let bytes = postcard::to_allocvec(&v4).map_err(|e| fail("hr-flag", format!("{:?}", e), cj()))?;
-    if bytes != [127, 0, 0, 1] {
+    if mode == HrMode::Encoder && bytes != [127, 0, 0, 1] {
         return Err(fail("hr-flag", format!("Ipv4Addr 127.0.0.1 encodes as {:?}, compact form is [127,0,0,1]", bytes), cj()));
     }
-    if postcard::from_bytes::<Ipv4Addr>(&bytes) != Ok(v4) {
+    if mode == HrMode::Decoder && postcard::from_bytes::<Ipv4Addr>(&[127, 0, 0, 1]) != Ok(v4) {
         return Err(fail("hr-flag", "Ipv4Addr does not decode from its compact form", cj()));
     }
-    let vals: Vec<IpAddr> = vec![IpAddr::V4(v4), IpAddr::V6(Ipv6Addr::LOCALHOST), IpAddr::V6(Ipv6Addr::new(0x2001, 0xdb8, 0, 0, 0, 0xff00, 0x42, 0x8329))];
-    for v in vals {
-        l.eval();
-        let b = postcard::to_allocvec(&v).map_err(|e| fail("hr-flag", format!("{:?}", e), cj()))?;
-        let want_len = match v {
-            IpAddr::V4(_) => 1 + 4,
-            IpAddr::V6(_) => 1 + 16,
-        };
-        if b.len() != want_len || postcard::from_bytes::<IpAddr>(&b) != Ok(v) {
-            return Err(fail("hr-flag", format!("IpAddr {} encodes to {} bytes ({:?}) / does not round-trip", v, b.len(), postcard::from_bytes::<IpAddr>(&b)), cj()));
+    if mode == HrMode::RoundTrip {
+        if postcard::from_bytes::<Ipv4Addr>(&bytes) != Ok(v4) {
+            return Err(fail("hr-flag", format!("Ipv4Addr 127.0.0.1 encodes as {:?} and decodes as {:?}", bytes, postcard::from_bytes::<Ipv4Addr>(&bytes)), cj()));
         }
-    }
-    let sa = SocketAddrV4::new(Ipv4Addr::new(10, 0, 0, 7), 8080);
-    let b = postcard::to_allocvec(&sa).map_err(|e| fail("hr-flag", format!("{:?}", e), cj()))?;
-    if postcard::from_bytes::<SocketAddrV4>(&b) != Ok(sa) || b[..4] != [10, 0, 0, 7] {
-        return Err(fail("hr-flag", format!("SocketAddrV4 encodes as {:?} / does not round-trip", b), cj()));
+        let vals: Vec<IpAddr> = vec![IpAddr::V4(v4), IpAddr::V6(Ipv6Addr::LOCALHOST), IpAddr::V6(Ipv6Addr::new(0x2001, 0xdb8, 0, 0, 0, 0xff00, 0x42, 0x8329))];
+        for v in vals {
+            l.eval();
+            let b = postcard::to_allocvec(&v).map_err(|e| fail("hr-flag", format!("{:?}", e), cj()))?;
+            if postcard::from_bytes::<IpAddr>(&b) != Ok(v) {
+                return Err(fail("hr-flag", format!("IpAddr {} encodes to {:?} and decodes as {:?}", v, b, postcard::from_bytes::<IpAddr>(&b)), cj()));
+            }
+        }
+        let sa = SocketAddrV4::new(Ipv4Addr::new(10, 0, 0, 7), 8080);
+        let b = postcard::to_allocvec(&sa).map_err(|e| fail("hr-flag", format!("{:?}", e), cj()))?;
+        if postcard::from_bytes::<SocketAddrV4>(&b) != Ok(sa) {
+            return Err(fail("hr-flag", format!("SocketAddrV4 encodes as {:?} / does not round-trip", b), cj()));
+        }
     }
     l.nontrivial(&("hr-flag", 1u8));
     l.nontrivial(&("hr-flag", 2u8));
